@@ -241,9 +241,18 @@ func peerSession(rec *recorder, h *vhandler, sp *peerSpec, c net.Conn, rep *vsup
 			time.Sleep(time.Duration(rng.Intn(500)) * time.Microsecond)
 		}
 	}
+	if sp.earlyFin {
+		// half-close now, start reading only later: the engine learns of the end of the stream while its answer is
+		// still piling up in front of a peer that does not read
+		rec.emit("PeerShut", "c", sp.id, "how", "fin", "sent", sent)
+		if cw, ok := c.(interface{ CloseWrite() error }); ok {
+			_ = cw.CloseWrite()
+		}
+		time.Sleep(150 * time.Millisecond)
+	}
 	close(release)
 	// wait for the final frame if one is due, then end the connection as scripted
-	expectFin := sp.reply != "none" && sp.shut != "server" && sent == sp.total && sp.total > 0
+	expectFin := sp.reply != "none" && sp.shut != "server" && sent == sp.total && sp.total > 0 && !sp.earlyFin
 	if expectFin {
 		select {
 		case <-gotFin:
@@ -261,9 +270,11 @@ func peerSession(rec *recorder, h *vhandler, sp *peerSpec, c net.Conn, rep *vsup
 	}
 	switch sp.shut {
 	case "fin":
-		rec.emit("PeerShut", "c", sp.id, "how", "fin", "sent", sent)
-		if cw, ok := c.(interface{ CloseWrite() error }); ok {
-			_ = cw.CloseWrite()
+		if !sp.earlyFin {
+			rec.emit("PeerShut", "c", sp.id, "how", "fin", "sent", sent)
+			if cw, ok := c.(interface{ CloseWrite() error }); ok {
+				_ = cw.CloseWrite()
+			}
 		}
 		done := make(chan struct{})
 		go func() { rd.Wait(); close(done) }()
@@ -591,6 +602,21 @@ func runServerScenario(t *testing.T, rec *recorder, cfg *sysCfg, seed uint64, sc
 				sp.consume = "mixed"
 			}
 		}
+		if !cfg.v6zone && i == 3 && cfg.conns >= 6 {
+			// a big OnOpen reply to a peer that reads late: conn.open's own write loop meets short writes and EAGAIN
+			sp := specs[i]
+			sp.total, sp.segs, sp.lockstep = 10, []int{10}, false
+			sp.shut, sp.peerRead, sp.consume, sp.reply = "fin", "stall", "all", "frames"
+			sp.closeAt, sp.openOut, sp.wakes, sp.asyncW, sp.budget = -1, 300000, 0, 0, 1
+		}
+		if !cfg.v6zone && i == 4 && cfg.conns >= 6 {
+			// a peer that asks, half-closes at once and reads only later: the end of its stream arrives while a big
+			// answer is stuck behind a full socket (the close-time flush must give up, not wait)
+			sp := specs[i]
+			sp.total, sp.segs, sp.lockstep = 10, []int{10}, false
+			sp.shut, sp.peerRead, sp.consume, sp.reply, sp.earlyFin = "fin", "stall", "all", "big", true
+			sp.closeAt, sp.openOut, sp.wakes, sp.asyncW, sp.budget = -1, -1, 0, 0, 1<<20
+		}
 		if cfg.v6zone && i == 0 {
 			// first wave: a connection that ends with an unfinished stream sitting in its inbound buffer (the peer
 			// stops half way and closes, the handler only peeks): its pooled ring goes back with bytes in it
@@ -813,6 +839,34 @@ func runShutdownScenario(t *testing.T, rec *recorder, cfg *sysCfg, seed uint64, 
 		}
 		wg.Add(1)
 		go func() { defer wg.Done(); runPeer(rec, h, sp, dial, scratch, rep) }()
+	case "OnTrafficWake":
+		// an idle connection; a user goroutine wakes it (with a callback) and that OnTraffic answers Shutdown
+		sp := mk(99)
+		sp.stopOn = "OnTraffic"
+		sp.total, sp.segs, sp.consume, sp.shut, sp.reply = 0, nil, "all", "server", "none"
+		wg.Add(1)
+		go func() { defer wg.Done(); runPeer(rec, h, sp, dial, scratch, rep) }()
+		var target *vconn
+		deadline := time.Now().Add(5 * time.Second)
+		for target == nil && time.Now().Before(deadline) {
+			h.conns.Range(func(_, v any) bool {
+				if vc := v.(*vconn); vc.spec.id == 99 {
+					target = vc
+					return false
+				}
+				return true
+			})
+			time.Sleep(time.Millisecond)
+		}
+		if target != nil {
+			a := h.newReq()
+			rec.emit("AIssue", "a", a, "c", 99, "kind", "Wake", "w", 0, "k", 0, "len", 0, "g", vsup.Goid())
+			werr := target.c.Wake(func(c Conn, err error) error {
+				rec.emit("ACb", "a", a, "c", 99, "err", errClass(err), "g", vsup.Goid())
+				return nil
+			})
+			rec.emit("AIssued", "a", a, "err", errClass(werr))
+		}
 	default:
 		rec.emit("StopReq", "src", "Engine.Stop", "g", g)
 		ctx, cancel := context.WithTimeout(context.Background(), 20*time.Second)
@@ -868,7 +922,8 @@ func TestVerifShutdown(t *testing.T) {
 	defer rec.uninstall()
 	rng := vsup.NewRng(vsup.Seed() + 4242)
 	rounds := vsup.EnvInt("VERIF_ROUNDS", 1)
-	sources := []string{"Engine.Stop", "Stop", "OnTick", "OnOpen", "OnTraffic", "OnClose", "OnBoot"}
+	// ("OnTrafficWake": the OnTraffic that answers Shutdown is one caused by Conn.Wake with a callback)
+	sources := []string{"Engine.Stop", "Stop", "OnTick", "OnOpen", "OnTraffic", "OnTrafficWake", "OnClose", "OnBoot"}
 	for r := 0; r < rounds; r++ {
 		for i, src := range sources {
 			for _, reuse := range []bool{false, true} {
